@@ -31,8 +31,8 @@ RULE = ("one case = (tree, exclusion list, way of reaching: each relative file p
 ASSUMPTIONS = ["the working directory is the codebase root (as the property states)",
                "hidden files named explicitly and hidden directories given as the target are not judged (the property constrains hidden "
                "files only when reached through a directory)"]
-BOUNDS = {"quick": dict(n=32, trees=800), "thorough": dict(n=64, trees=12000)}
-MINIMUM = {"quick": {"monitor.check_runs": 6000, "monitor.files_compared": 15000, "monitor.listing_lines_parsed": 4000},
+BOUNDS = {"quick": dict(n=32, trees=1500), "thorough": dict(n=64, trees=12000)}
+MINIMUM = {"quick": {"monitor.check_runs": 8000, "monitor.files_compared": 15000, "monitor.listing_lines_parsed": 2500},
            "thorough": {"monitor.check_runs": 100000, "monitor.files_compared": 250000, "monitor.listing_lines_parsed": 60000}}
 LANG_OF_EXT = {".py": "Python", ".js": "JavaScript", ".ts": "TypeScript", ".c": "C", ".cpp": "C++", ".cs": "C#", ".java": "Java"}
 LINE = re.compile(r"^(?P<path>.+?):(?P<line>\d+):(?P<col>\d+): (?P<len>\d+) (?P<sym>\S) (?P<name>.+)$")
@@ -52,7 +52,7 @@ def tree_with_long_functions(rng):
         if lang is None:
             out[rel] = data
             continue
-        lengths = [rng.choice([10, 29, 30, 31, 32, 45, 60, 61, 62, 75, 12]) for _ in range(rng.randint(0, 4))]
+        lengths = [rng.choice([10, 29, 30, 31, 32, 45, 60, 61, 62, 75, 12]) for _ in range(rng.choice([1, 1, 2, 2, 3, 4]))]
         if lang == "Python":
             lengths = [max(2, x) for x in lengths]
         text = canon.file_with_functions(lang, lengths, prefix=f"u{i}x")
@@ -63,8 +63,13 @@ def tree_with_long_functions(rng):
         elif k < 0.24:
             lead = "# caf\xe9 \xfc\n" if lang == "Python" else "// caf\xe9 \xfc\n"
             body = lead.encode("latin-1") + text.encode()
+            if rng.random() < 0.6:
+                # Latin-1 bytes inside identifiers and function names: the decoding decides what the tokens are
+                body = body.replace(f"u{i}x".encode(), f"u{i}\xe9x".encode("latin-1")).replace(b" a, ", b" a\xfc, ")
         elif k < 0.3:
             body = text.replace("\n", "\r\n").encode()
+        elif k < 0.55:
+            body = text.rstrip("\n").encode()  # last line not newline-terminated; often a single function filling the whole file
         else:
             body = text.encode()
         out[rel] = body
